@@ -4380,6 +4380,21 @@ CK_RV SoftHSM::AsymSignInit(CK_SESSION_HANDLE hSession, CK_MECHANISM_PTR pMechan
 			return CKR_MECHANISM_INVALID;
 	}
 
+	// Check that the key type fits the mechanism
+	CK_KEY_TYPE keyType = key->getUnsignedLongValue(CKA_KEY_TYPE, CKK_VENDOR_DEFINED);
+	if (isRSA && keyType != CKK_RSA)
+		return CKR_KEY_TYPE_INCONSISTENT;
+	if (isDSA && keyType != CKK_DSA)
+		return CKR_KEY_TYPE_INCONSISTENT;
+#ifdef WITH_ECC
+	if (isECDSA && keyType != CKK_EC)
+		return CKR_KEY_TYPE_INCONSISTENT;
+#endif
+#ifdef WITH_EDDSA
+	if (isEDDSA && keyType != CKK_EC_EDWARDS)
+		return CKR_KEY_TYPE_INCONSISTENT;
+#endif
+
 	AsymmetricAlgorithm* asymCrypto = NULL;
 	PrivateKey* privateKey = NULL;
 	if (isRSA)
@@ -4465,6 +4480,9 @@ CK_RV SoftHSM::AsymSignInit(CK_SESSION_HANDLE hSession, CK_MECHANISM_PTR pMechan
 	else
 	{
 #ifdef WITH_GOST
+		if (keyType != CKK_GOSTR3410)
+			return CKR_KEY_TYPE_INCONSISTENT;
+
 		asymCrypto = CryptoFactory::i()->getAsymmetricAlgorithm(AsymAlgo::GOST);
 		if (asymCrypto == NULL) return CKR_MECHANISM_INVALID;
 
@@ -5356,6 +5374,21 @@ CK_RV SoftHSM::AsymVerifyInit(CK_SESSION_HANDLE hSession, CK_MECHANISM_PTR pMech
 			return CKR_MECHANISM_INVALID;
 	}
 
+	// Check that the key type fits the mechanism
+	CK_KEY_TYPE keyType = key->getUnsignedLongValue(CKA_KEY_TYPE, CKK_VENDOR_DEFINED);
+	if (isRSA && keyType != CKK_RSA)
+		return CKR_KEY_TYPE_INCONSISTENT;
+	if (isDSA && keyType != CKK_DSA)
+		return CKR_KEY_TYPE_INCONSISTENT;
+#ifdef WITH_ECC
+	if (isECDSA && keyType != CKK_EC)
+		return CKR_KEY_TYPE_INCONSISTENT;
+#endif
+#ifdef WITH_EDDSA
+	if (isEDDSA && keyType != CKK_EC_EDWARDS)
+		return CKR_KEY_TYPE_INCONSISTENT;
+#endif
+
 	AsymmetricAlgorithm* asymCrypto = NULL;
 	PublicKey* publicKey = NULL;
 	if (isRSA)
@@ -5441,6 +5474,9 @@ CK_RV SoftHSM::AsymVerifyInit(CK_SESSION_HANDLE hSession, CK_MECHANISM_PTR pMech
 	else
 	{
 #ifdef WITH_GOST
+		if (keyType != CKK_GOSTR3410)
+			return CKR_KEY_TYPE_INCONSISTENT;
+
 		asymCrypto = CryptoFactory::i()->getAsymmetricAlgorithm(AsymAlgo::GOST);
 		if (asymCrypto == NULL) return CKR_MECHANISM_INVALID;
 
